@@ -9,20 +9,18 @@ class C09(Spec):
         "C09.pad_order",
         "C09.getV_correct_partial", "C09.getV_correct_full_false", "C09.getV_correct_sepfree_false",
         "C09.delTop_restores", "C09.delTop_restores_state", "C09.applyAdd_wf", "C09.fresh_of_below", "C09.history_wf",
-        "C09.trash_keeps_newest_partial", "C09.trash_keeps_newest_full_false",
-        "C09.trash_keeps_newest_nocover", "C09.prefixFree_noForeignCover", "C09.trash_collects_covered_by_top",
+        "C09.trash_keeps_newest", "C09.trash_removes_iff", "C09.old_trash_removes_newest",
         "C09.iadd_keeps_last", "C09.idel_restores_last_partial",
         "C09.idel_restores_last_full_false_version0", "C09.idel_restores_last_full_false_foreign",
     )
-    partial = ("C09.getV_correct_partial", "C09.trash_keeps_newest_partial", "C09.trash_keeps_newest_nocover",
-               "C09.idel_restores_last_partial")
-    refuted = ("C09.getV_correct_full_false", "C09.getV_correct_sepfree_false", "C09.trash_keeps_newest_full_false",
+    partial = ("C09.getV_correct_partial", "C09.idel_restores_last_partial")
+    refuted = ("C09.getV_correct_full_false", "C09.getV_correct_sepfree_false",
                "C09.idel_restores_last_full_false_version0", "C09.idel_restores_last_full_false_foreign")
     level_text = ("Lean theorems about a byte-exact model of the MVCC data region (GetKey/pad, reverse prefix seek of GetV, "
                   "AddMVCC/DelMVCC, Trash/cutVersion/getVersion): 20-digit padding is an order isomorphism; removing the top "
                   "version restores the data region and hence every read for ALL key shapes; GetV returns the most recent write "
                   "<= v for separator-free key sets without empty values (partial), Trash keeps the newest version and every "
-                  "version above the cut for prefix-free key sets (partial); the full statements are refuted on concrete "
+                  "version above the cut for EVERY well-formed store, with the exact set of removed records (after repo fix 3f54487; the former HasPrefix loop is kept as a regression witness); the remaining full statements are refuted on concrete "
                   "witnesses that are replayed on the real code (corpus/C09). The model is tied to common/db (MVCCHelper over "
                   "goleveldb and memdb, MVCCIter with its 'last' records) and executor.StateDB by an exact differential run over generated version chains with "
                   "adversarial key shapes, reads at every version, removals from the top and collections at every cut; the "
